@@ -53,7 +53,7 @@ def build_model():
         model_ml = os.path.join(gen, 'model.ml')
         model_vo = [os.path.join(COQ, f) for f in os.listdir(COQ) if f.endswith('.vo')] + \
                    [os.path.join(COQ, 'gen', f) for f in os.listdir(os.path.join(COQ, 'gen')) if f.endswith('.vo')]
-        stale = not os.path.exists(model_ml) or any(os.path.getmtime(v) > os.path.getmtime(model_ml) for v in model_vo)
+        stale = not os.path.exists(model_ml) or any(os.path.getmtime(v) > os.path.getmtime(model_ml) for v in model_vo + [os.path.join(COQ, 'Extract.v')])
         if stale:
             sh('coqc -Q ../../coq Frugal ../../coq/Extract.v', cwd=gen, timeout=600)
         j = judge_exe()
@@ -111,13 +111,21 @@ def proof_status(prop, make_log):
 # or its disagreement with the reference the property names)
 DECISIVE = {
     'C01': {'prop-rt-value', 'prop-rt-n', 'prop-rt-fail', 'panic', 'crash', 'corr-encerr', 'corr-sizepanic'},
-    'C02': {'corr-bytes', 'prop-malformed', 'panic', 'crash', 'corr-encerr'},
+    'C02': {'corr-dispatch', 'corr-bytes', 'prop-malformed', 'panic', 'crash', 'corr-encerr'},
     'C03': {'corr-value', 'corr-n', 'corr-err-vs-ok', 'panic', 'crash'},
     'C04': {'prop-size', 'prop-short-accepted', 'prop-fit-rejected', 'prop-guard', 'panic', 'crash', 'corr-sizepanic'},
     'C05': {'panic', 'crash', 'corr-ok-vs-err', 'corr-err-vs-ok', 'prop-alloc', 'prop-time'},
-    'C09': {'corr-err-vs-ok', 'corr-ok-vs-err', 'corr-errclass', 'corr-errfield', 'corr-bytes', 'panic', 'crash'},
+    'C06': {'prop-memory', 'prop-memory-changed', 'corr-span', 'corr-value', 'prop-input-alias', 'panic', 'crash'},
+    'C07': {'corr-value', 'corr-n', 'corr-err-vs-ok', 'corr-ok-vs-err', 'corr-bytes', 'corr-size', 'prop-rt-value', 'prop-size', 'prop-invalid-size',
+            'prop-invalid-enc', 'prop-invalid-dec', 'prop-valid-rejected', 'corr-errfield', 'corr-errclass', 'panic', 'crash'},
+    'C08': {'corr-value', 'corr-n', 'corr-err-vs-ok', 'corr-ok-vs-err', 'corr-bytes', 'corr-size', 'prop-rt-value', 'prop-size', 'prop-deadlock',
+            'corr-descmap', 'panic', 'crash', 'race'},
+    'C14': {'prop-nocopy-set', 'prop-nocopy-cap', 'prop-nocopy-view', 'prop-input-alias', 'prop-memory', 'corr-value', 'panic', 'crash'},
+    'C17': {'prop-legacy', 'corr-value', 'corr-n', 'corr-err-vs-ok', 'corr-ok-vs-err', 'corr-bytes', 'corr-size', 'prop-rt-value', 'prop-size', 'panic', 'crash'},
+    'C18': {'prop-allocs', 'panic', 'crash'},
+    'C09': {'corr-bitset', 'corr-err-vs-ok', 'corr-ok-vs-err', 'corr-errclass', 'corr-errfield', 'corr-bytes', 'panic', 'crash'},
     'C10': {'corr-bytes', 'corr-value', 'corr-size', 'prop-rt-value', 'panic', 'crash'},
-    'C11': {'corr-value', 'corr-bytes', 'corr-size', 'prop-size', 'corr-hop', 'panic', 'crash'},
+    'C11': {'corr-unknown', 'corr-value', 'corr-bytes', 'corr-size', 'prop-size', 'corr-hop', 'panic', 'crash'},
     'C12': {'corr-resolve', 'corr-resolve-rejected', 'corr-resolve-accepted', 'corr-bytes', 'corr-value', 'prop-rt-value', 'panic', 'crash', 'universe-mismatch'},
     'C13': {'corr-resolve-accepted', 'prop-invalid-size', 'prop-invalid-enc', 'prop-invalid-dec', 'prop-valid-rejected', 'prop-badarg', 'panic', 'crash'},
     'C15': {'corr-errclass', 'corr-err-vs-ok', 'corr-ok-vs-err', 'panic', 'crash'},
@@ -205,29 +213,47 @@ def main():
     return 1 if out_lines else 0
 
 
-def standard_check(prop, tier, seed, widen=False):
+def standard_check(prop, tier, seed, widen=False, gen=None, race=False):
     u, groups = build_universe(seed, tier)
-    exe = build_harness(u, prop)
+    exe = build_harness(u, prop, race=race)
     rng = Rng(seed).fork(prop)
-    gen = casegen.GENERATORS[prop]
+    gen = gen or casegen.GENERATORS[prop]
     cs = gen(u, groups, rng, tier)
-    if widen and tier == 'quick':
+    sessions, envs = None, None
+    if isinstance(cs, dict):                  # {'sessions': [[(sx, info)]], 'envs': [...]}
+        sessions, envs = cs['sessions'], cs.get('envs')
+        cs = []
+    elif widen and tier == 'quick':
         # a proof obligation broke: look harder for a concrete failing input
         cs += gen(u, groups, rng.fork('widen'), 'thorough')
-    # corpus first
     corpus = load_corpus(prop, u)
-    ids = []
     cases = []
     infos = {}
-    for i, (sx, info) in enumerate(corpus + cs):
-        cid = 'k%d' % i
+    n = 0
+    for sx, info in corpus + cs:
+        cid = 'k%d' % n
+        n += 1
         cases.append((cid, sx))
         infos[cid] = info
+    sess_ids = []
+    if sessions is not None:
+        for sess in sessions:
+            ids = []
+            for sx, info in sess:
+                cid = 'k%d' % n
+                n += 1
+                ids.append((cid, sx))
+                infos[cid] = info
+            sess_ids.append(ids)
     t1 = time.time()
     obs = run_cases(exe, cases)
+    if sess_ids:
+        obs.update(run_sessions(exe, sess_ids, envs=envs))
+        for ids in sess_ids:
+            cases += ids
     t2 = time.time()
     res = run_judge(u.env_sx() + '\n' + u.gouniverse_sx(), cases, obs, os.path.join(CACHE, 'work', prop))
-    log('[%s] %d cases: run %.1fs judge %.1fs' % (prop, len(cases), t2 - t1, time.time() - t2))
+    log('[%s] %d cases (%d sessions): run %.1fs judge %.1fs' % (prop, len(cases), len(sess_ids), t2 - t1, time.time() - t2))
     failures = []
     cd = dict(cases)
     dec = DECISIVE.get(prop, set())
@@ -236,7 +262,7 @@ def standard_check(prop, tier, seed, widen=False):
             continue
         tags = r[1]
         failures.append({'id': cid, 'case': cd[cid], 'tags': tags, 'detail': r[2], 'obs': obs.get(cid, ''),
-                         'decisive': bool(set(tags) & dec) or any(t.startswith('model-') for t in tags) and False})
+                         'decisive': bool(set(tags) & dec), 'session': session_of(sess_ids, cid)})
     if UNIVERSE_STATUS.get('MISMATCH') is not None or 'ENV-NOT-OK' in UNIVERSE_STATUS:
         failures.append({'id': 'universe', 'case': '(universe)', 'tags': ['universe-mismatch'],
                          'detail': 'the model resolver and the schema the tags were printed from differ for: %s' % UNIVERSE_STATUS,
@@ -258,12 +284,21 @@ def standard_check(prop, tier, seed, widen=False):
     for cid, _ in cases:
         o = obs.get(cid, '')
         m = re.match(r'\((ok|err \w+|panic|crash|size)', o)
-        key = m.group(1) if m else 'other'
+        key = m.group(1) if m else (o.split(' ')[0][:12] if o else 'none')
         errs[key] = errs.get(key, 0) + 1
     samples = [cd[cid][:400] for cid, _ in cases[:2]] + [cd[cases[len(cases) // 2][0]][:400]]
+    if sess_ids:
+        samples.append([sx[:200] for _, sx in sess_ids[0][:6]])
     return {'evaluations': len(cases), 'distinct': distinct, 'types': types_used, 'universe_types': len(u.structs),
             'distribution': dist, 'outcomes': errs, 'failures': failures, 'samples': samples,
-            'universe': u, 'corpus_cases': len(corpus)}
+            'universe': u, 'corpus_cases': len(corpus), 'sessions': len(sess_ids)}
+
+
+def session_of(sess_ids, cid):
+    for ids in sess_ids:
+        if any(c == cid for c, _ in ids):
+            return [sx for _, sx in ids]
+    return None
 
 
 def load_corpus(prop, u):
@@ -291,6 +326,8 @@ def write_replay(prop, tier, seed, f, result, ps, kind):
            'replay_cmd': 'scripts/check.sh --replay %s' % os.path.relpath(path, VERIF)}
     if f is not None:
         doc.update({'case': f['case'], 'tags': f['tags'], 'expected_vs_observed': f['detail'][:4000], 'observation': f['obs'][:4000]})
+        if f.get('session'):
+            doc['session'] = [x[:2000] for x in f['session']]
         u = result.get('universe')
         m = re.match(r'\(\w+ (\w+) ', f['case'])
         if u is not None and m and m.group(1) in u.by_name:
